@@ -310,7 +310,8 @@ pub fn run(rep: &mut Rep) {
         max_ops: 60,
         max_conc: 8,
         pub_ack_variants: vec![(0, 0), (2, 1)],
-        sub_ack_variants: vec![(0, 0)],
+        // (SUBACKs that grant every filter, refuse every filter, or grant some and refuse others)
+        sub_ack_variants: vec![(0, 0), (2, 1), (4, 0), (8, 1)],
         holds_any: true,
         holds: true,
         race: true,
@@ -331,6 +332,8 @@ pub fn run(rep: &mut Rep) {
         let mut w = World::boot(WorldCfg { seed, receive_max: Some(1 + (k % 3) as u16), max_packet: if k % 3 == 0 { Some(64) } else { None }, order: (k % 4) as u8, ..Default::default() });
         // under the Maximum Packet Size every third subscribe / unsubscribe is refused too: its identifiers are consumed, never sent
         w.big_subs = k % 3 == 0;
+        // ... and where no limit is announced every second subscribe carries three filters
+        w.multi_filter = k % 3 != 0;
         let acts = super::script::run_walk(&mut w, &wa, &mut rng, 70);
         rep.add("evaluations", 1);
         rep.add("refusal_walks", 1);
